@@ -39,3 +39,109 @@ pub fn parse_rust(code: &str) -> Vec<LogRefEntry>
 
     parser::code_parser::find_references(CodeLanguage::Rust, code, &config)
 }
+
+/*
+ * Verification hooks. Compiled only with the `verif-hooks` cargo feature;
+ * they expose the parser with an arbitrary configuration and the two run
+ * modes without logger / signal set-up. The executable does not include
+ * this file.
+ */
+#[cfg(feature = "verif-hooks")]
+#[allow(dead_code)]
+mod codegen;
+
+#[cfg(feature = "verif-hooks")]
+pub mod verif
+{
+    use crate::config;
+    use crate::parser::code_parser::CodeLanguage;
+    use crate::parser::LogRefEntry;
+
+    /// One parser result, flattened for external inspection.
+    #[derive(Clone, Debug, PartialEq, Eq)]
+    pub struct Entry
+    {
+        /// 0-based byte offset of the reference position.
+        pub offset: usize,
+        /// 1-based line.
+        pub line: usize,
+        /// 1-based column.
+        pub column: usize,
+        /// The reference, when present and valid.
+        pub reference: Option<u32>,
+        /// Whether a reference can be placed at / read from this position.
+        pub usable: bool,
+        /// Name of the macro, without module path.
+        pub macro_name: String,
+        /// Text that an edit run would insert for reference ID 7.
+        pub token_for_7: String,
+    }
+
+    fn make_config(structured: bool, macros: &[(String, String)]) -> config::Config
+    {
+        config::Config {
+            config_dir: String::new(),
+            source_dir: String::from("/nonexistent"),
+            use_cache: false,
+            rust: config::context::RustConfig {
+                structured,
+                log_macros: macros
+                    .iter()
+                    .map(|(module, name)| config::context::RustLogMacro {
+                        module: module.clone(),
+                        name: name.clone(),
+                    })
+                    .collect(),
+                extensions: vec![String::from("rs")],
+            },
+        }
+    }
+
+    /// Run the reference finder over `code` with the given configuration.
+    pub fn find(code: &str, structured: bool, macros: &[(String, String)]) -> Vec<Entry>
+    {
+        let config = make_config(structured, macros);
+
+        crate::parser::code_parser::find_references(CodeLanguage::Rust, code, &config)
+            .iter()
+            .map(|e| Entry {
+                offset: e.position().character(),
+                line: e.position().line(),
+                column: e.position().column(),
+                reference: e.reference(),
+                usable: e.usable_reference_position(),
+                macro_name: e._macro_name().to_string(),
+                token_for_7: e.insertable_reference_string(7),
+            })
+            .collect()
+    }
+
+    /// The message-prefix reference extractor.
+    pub fn extract_reference(literal: &str) -> Option<u32>
+    {
+        LogRefEntry::extract_reference(literal)
+    }
+
+    /// Run check mode or edit mode the way `main` does, minus logger and signal set-up.
+    pub fn run(config_path: &str, check_mode: bool) -> Result<u32, String>
+    {
+        let yaml = std::fs::read_to_string(config_path).map_err(|e| e.to_string())?;
+
+        let config_dir = match std::path::Path::new(config_path).parent()
+        {
+            None => String::new(),
+            Some(p) => p.to_str().unwrap_or("").to_string(),
+        };
+
+        let context = config::Context::new(yaml, &config_dir, check_mode)?;
+
+        if check_mode
+        {
+            crate::codegen::generate::check_references(&context).map_err(|e| e.to_string())
+        }
+        else
+        {
+            crate::codegen::generate::generate_code(&context).map_err(|e| e.to_string())
+        }
+    }
+}
